@@ -130,7 +130,7 @@ func runQueryProp(prop string, seed int64, tier string, out string) {
 				}
 			}
 			q.cpu = 1
-			if qi%3 == 2 && q.shape != "group-by" {
+			if qi%3 == 2 || (big && qi%2 == 0) {
 				q.cpu = 4
 			}
 			tx.Flags.SetCPU(q.cpu)
